@@ -1112,11 +1112,9 @@ class InBodyPhase(Phase):
             self.parser.parseError("unexpected-start-tag-implies-end-tag",
                                    {"startName": "button", "endName": "button"})
             self.processEndTag(impliedTagToken("button"))
-            return token
-        else:
-            self.tree.reconstructActiveFormattingElements()
-            self.tree.insertElement(token)
-            self.parser.framesetOK = False
+        self.tree.reconstructActiveFormattingElements()
+        self.tree.insertElement(token)
+        self.parser.framesetOK = False
 
     def startTagAppletMarqueeObject(self, token):
         self.tree.reconstructActiveFormattingElements()
